@@ -187,11 +187,18 @@ func (c *Sender) Request(cmdClassifier model.CmdClassifierType, senderAddress, d
 		datagram.Header.AckRequest = &ackRequest
 	}
 
+	// remember the request before it is written: the response may be processed
+	// (by the goroutine reading from the connection) before the write returns,
+	// and a response that finds nothing to remove would leave the request
+	// remembered as unanswered
+	if len(hash) > 0 {
+		c.addMsgCounterHashToCache(*msgCounter, hash)
+	}
+
 	err := c.sendSpineMessage(datagram)
-	if err == nil {
-		if len(hash) > 0 {
-			c.addMsgCounterHashToCache(*msgCounter, hash)
-		}
+	if err != nil {
+		// nothing was sent, there is nothing to wait for
+		c.ProcessResponseForMsgCounterReference(msgCounter)
 	}
 
 	return msgCounter, err
